@@ -864,7 +864,18 @@ where
             // `sel_mul` is the residual after all other op selectors are subtracted:
             // active = sel_mul + sel_bool + sel_muladd + sel_horner + sel_add.
             let active = AB::Expr::ZERO - mult_a;
-            let sel_mul = active - sel_bool - sel_muladd - sel_horner - sel_add;
+            let sel_mul = active.clone() - sel_bool - sel_muladd - sel_horner - sel_add;
+
+            // ── Inactive lane 0 (separator / padding): out = 0 ───────────
+            // The inter-row Horner constraints read the previous row's lane-0 `out` as the
+            // accumulator, and a chain starts right after a separator row. A separator has no
+            // selector and no lookup, so without this constraint its `out` cell — the
+            // accumulator the chain starts from — would be free.
+            if lane == 0 {
+                for i in 0..D {
+                    builder.assert_zero((AB::Expr::ONE - active.clone()) * out[i]);
+                }
+            }
 
             // ── ADD: a + b - out = 0 ────────────────────────────────────
             for i in 0..D {
